@@ -7,6 +7,7 @@ import (
 	_ "crypto/sha1"
 	_ "crypto/sha256"
 	"crypto/sha512"
+	"encoding/base64"
 	"fmt"
 	"math"
 	"sort"
@@ -59,6 +60,24 @@ func c17Alphabet() []c17op {
 				ops = append(ops, c17op{name: fmt.Sprintf("digest(idx=%d,len=%d,%c)", idx, ln, 'A'+ci), valid: idx >= 0 && idx <= 3 && ln == 48, index: idx, digest: d,
 					call: func(t *world.TSM, b *c17bufs) error { return rtmr.ExtendDigestClient(t, idx, b.digest(ci, ln)) }})
 			}
+		}
+	}
+	// digests far outside the 48 bytes: the printed (hex) form of a digest, in either case, with a line feed, 96 zero
+	// bytes, 128 bytes — only 48 bytes are a digest
+	for _, idx := range []int{0, 3} {
+		for _, dv := range []struct {
+			name string
+			b    []byte
+		}{
+			{"hex-text-of-A(96)", []byte(hexs(a[:48]))}, {"HEX-TEXT-of-A(96)", []byte(strings.ToUpper(hexs(a[:48])))}, {"hex-text-of-A+LF(97)", []byte(hexs(a[:48]) + "\n")},
+			{"space+hex-text-of-A(97)", []byte(" " + hexs(a[:48]))}, {"0x+hex-text(98)", []byte("0x" + hexs(a[:48]))}, {"96-zero-bytes", make([]byte, 96)}, {"128-bytes", append(append([]byte{}, a...), b...)},
+			{"base64-text-of-A(64)", []byte(base64.StdEncoding.EncodeToString(a[:48]))},
+		} {
+			idx, dv := idx, dv
+			ops = append(ops, c17op{name: fmt.Sprintf("digest(idx=%d,%s)", idx, dv.name), valid: false, index: idx, digest: dv.b,
+				call: func(t *world.TSM, _ *c17bufs) error {
+					return rtmr.ExtendDigestClient(t, idx, append([]byte(nil), dv.b...))
+				}})
 		}
 	}
 	for _, idx := range []int{-1, 0, 1, 2, 3, 4} {
